@@ -581,3 +581,8 @@ MUTANTS = [
 # SESSION7 additions to the claim (clauses added in DESIGN section 12)
 CLAIM['technique'] += '; narrowed-operand lint on the pin comparisons'
 CLAIM['text'] += ' C07-i: no pin is compared after a narrowing conversion.'
+
+
+# SESSION7b additions to the claim (round 8, DESIGN 12.6)
+CLAIM['technique'] += '; who-may-clear inventory of the pin fields over the call graph'
+CLAIM['text'] += ' C07-j: only the option setters, the constructor and functions reachable solely from zck_free() write or free a pin.'
